@@ -5,6 +5,7 @@ CONSTANTS
   ExitOnFlag = TRUE
   LearnOnTerminal = FALSE
   DrainOnEnd = TRUE
+  RewardTotal = TRUE
 SPECIFICATION Spec
 INVARIANT NoPhantomLearn
 INVARIANT Attribution
